@@ -153,9 +153,21 @@ def gen_plan(seed, cfg):
             sp["force_windows"] = {"cffi_recompile": rng.randint(2, 6), "cffi_platform": rng.randint(1, 4),
                                    "compile_evaluate": rng.randint(1, 3)}
         sp.pop("change_points", None)
-    return {"engine": "T", "run_seed": seed, "hashseed": seed % 8, "n": n, "mode": mode, "problems": problems,
+    plan = {"engine": "T", "run_seed": seed, "hashseed": seed % 8, "n": n, "mode": mode, "problems": problems,
             "threads": threads, "data": data, "sched": sp, "heap": hk,
             "capacity": rng.choice([1, 1, 2, 3, 8, 1 << 20]), "decisions": None}
+    if rng.random() < (0.03 if tier == "quick" else 0.05):
+        # enumeration run: two threads, one shared method (compiled or not), every shared write of
+        # the victim thread tried as the parking position
+        plan["mode"] = "park_sweep"
+        plan["n"] = 2
+        ci = rng.randrange(len(CATALOG))
+        plan["problems"] = [{"catalog": ci, "name": f"o{seed % 100000:05d}s", "backend": "llvm",
+                             "entry": rng.choice(ENTRY_POINTS), "prewarm": rng.random() < 0.4}]
+        va, vb = rng.sample([0, 1, 2], 2)
+        plan["threads"] = [[[0, va], [0, vb]], [[0, vb], [0, va]]]
+        plan["park_sweep"] = {"thread": rng.randrange(2), "max": 90}
+    return plan
 
 
 # --------------------------------------------------------------------------- execution
@@ -292,6 +304,45 @@ def _make_tracer(s: Sched):
 
 
 def run_plan(plan, cfg=None):
+    """With plan["park_sweep"] the same workload is run once per shared-state write of the victim
+    thread: the victim is parked right before its k-th write, k = 1, 2, ... until it has no k-th
+    write (fault enumeration over the pre-emption points at shared writes for that workload)."""
+    sw = plan.get("park_sweep")
+    if not sw:
+        return _run_once(plan, cfg)
+    import copy
+
+    first = None
+    covered = 0
+    for k in range(1, sw["max"] + 1):
+        p = copy.deepcopy(plan)
+        p["park_sweep"] = None
+        p["decisions"] = None
+        p["sched"] = {"strategy": "pct_writes", "p_hot": 0.0, "p_cold": 0.0, "p_gc": 0.0,
+                      "park_at": {str(sw["thread"]): k}, "first": sw["thread"]}
+        r = _run_once(p, cfg)
+        if first is None:
+            first = r
+        else:
+            for key, v in (r.get("stats") or {}).items():
+                first["stats"][key] = first["stats"].get(key, 0) + v
+            first["steps"] = first.get("steps", 0) + r.get("steps", 0)
+        if r["verdict"] != "ok":
+            if r["verdict"] == "violation":
+                plan.clear()
+                plan.update(p)  # the failing position becomes the plan of record
+            r.setdefault("probes", {})["park_sweeps"] = 1
+            return r
+        if not r["probes"].get("parked_at_shared_write"):
+            break  # the victim has fewer than k shared writes: every position was covered
+        covered += 1
+    first["probes"]["park_sweeps"] = 1
+    first["probes"]["park_positions_enumerated"] = covered
+    first["shape"] = f"sweep:{first.get('shape')}"
+    return first
+
+
+def _run_once(plan, cfg=None):
     from tensora import Tensor
     from tensora.compile import _porcelain
 
@@ -533,6 +584,17 @@ def summarise_extra(agg):
 def shrink_candidates(plan):
     import copy
 
+    if plan.get("park_sweep"):
+        # a sweep that crashed the worker: find the single position that does it
+        sw = plan["park_sweep"]
+        for k in range(1, sw["max"] + 1):
+            p = copy.deepcopy(plan)
+            p["park_sweep"] = None
+            p["decisions"] = None
+            p["sched"] = {"strategy": "pct_writes", "p_hot": 0.0, "p_cold": 0.0, "p_gc": 0.0,
+                          "park_at": {str(sw["thread"]): k}, "first": sw["thread"]}
+            yield p
+        return
     dec_ = plan.get("decisions") or []
     n = plan["n"]
     # 1. drop threads (renumbering decisions is not attempted: re-generate the schedule instead)
